@@ -25,6 +25,7 @@ RULE = (
     "oracle: entering raises within timeout+eps or yields a connection on which a probe request gets a terminal message; exactly one response per request id (type-strict id); server messages once and in order; "
     "after exit both HTTP clients are closed, the event-stream generator is closed and no task created by the case is pending; non-trivial = establishment other than the plain endpoint event, or |delta|<=20 ms race, "
     "or a cut inside a character/CRLF, or a non-normal exit; distinct = distinct case"
+    "; added in rounds 6-7 of the seeded changes: server request ids drawn from the client's id pool; per-event spelling cycles; absolute-URL announcements with another origin"
 )
 ASSUMPTIONS = [
     "plain SSE encoding (event: x / data: y / blank line, LF or CRLF): exotic encodings are C11's subject",
